@@ -32,6 +32,22 @@ def run(ctx):
     ctx.exhaustive = True
     for t in s["samples"]:
         ctx.sample(t)
+    # ---- code -> spec: element-hiding rules of the bundled lists, reference bits from CosmeticRule.Match ----
+    tr = os.path.join(ctx.work, "cos-trace.ndjson")
+    d = ctx.vh(["drive-cosmetic", "n=%d" % (300 if ctx.tier == "quick" else 5000), "out=" + tr], timeout=3000)
+    nev, rejects = ctx.validate_trace("Trace_Cosmetic", tr, chunk=150, procs=(2 if ctx.tier == "quick" else 8))
+    ctx.validated += nev - len(rejects)
+    ctx.evaluations += nev
+    ctx.nontrivial += d["with_specific_result"]
+    ctx.extra["list_cosmetic_rules"] = d["cosmetic_rules"]
+    ctx.extra["list_events"] = nev
+    if rejects:
+        events = vf.read_ndjson(tr)
+        for rj in rejects[:30]:
+            e = events[rj["l"] - 1]
+            ctx.report("bundled cosmetic rules, hostname %s css=%s gcss=%s: selectors missing %s, selectors in excess %s" % (
+                e["host"], e["css"], e["gcss"], str(rj["spec"])[:300], str(rj["code"])[:300]),
+                {"reexec": ["drive-cosmetic"], "host": e["host"], "seed": ctx.seed}, {"cause": "real-lists"})
     pool = [x for x in recs if x["kind"] == "POOL"]
     seen = set()
     for m in mism:
